@@ -165,3 +165,59 @@ Proof.
 Qed.
 
 End LM.
+
+(* ---------- more on the follower loop: an agreeing prefix survives ---------- *)
+Section Keep.
+Variable ledger : N -> list entry.
+
+(* If A and Lg agree on the first m entries (m within A), then after processing a segment of Lg they
+   still agree on the first m entries: a conflict can only occur where A and Lg differ. *)
+Lemma append_entries_keep : forall es A p Lg m,
+  WI A -> WI Lg -> LM ledger A -> LM ledger Lg -> (p <= length A)%nat ->
+  firstn p A = firstn p Lg ->
+  es = firstn (length es) (skipn p Lg) ->
+  (m <= length A)%nat -> firstn m A = firstn m Lg ->
+  let A' := append_entries es A in
+  (m <= length A')%nat /\ firstn m A' = firstn m Lg.
+Proof.
+  induction es as [|e es IH]; intros A p Lg m WA WL HA HL Hlen Hag Hes Hm Hmag; cbn [append_entries length].
+  - split; assumption.
+  - destruct (seg_head _ _ _ _ Hes) as [He [Hes' Hstep]].
+    assert (Hidx : eidx e = N.of_nat (S p)) by (apply (WL (S p) e); exact He).
+    unfold llen. rewrite Hidx.
+    destruct (N.ltb_spec (N.of_nat (length A)) (N.of_nat (S p))) as [Hlt|Hge].
+    + (* push at the end *)
+      assert (EA : A ++ [e] = firstn (S p) Lg).
+      { rewrite Hstep, <- Hag. f_equal. symmetry. apply firstn_all2. lia. }
+      apply (IH (A ++ [e]) (S p) Lg m); auto.
+      * rewrite EA. apply WI_firstn. exact WL.
+      * rewrite EA. apply LM_firstn. exact HL.
+      * rewrite app_length. cbn. lia.
+      * rewrite EA. rewrite firstn_firstn. f_equal. lia.
+      * rewrite app_length. cbn. lia.
+      * rewrite firstn_app_le by exact Hm. exact Hmag.
+    + rewrite nth_entry_ent_at. rewrite Nat2N.id.
+      destruct (ent_at A (S p)) as [x|] eqn:T.
+      2:{ exfalso. cbn in T. apply nth_error_None in T. lia. }
+      destruct (N.eqb_spec (eterm x) (eterm e)) as [Et|Ne].
+      * (* same term: keep A; agreement extends to p+1 by Log Matching *)
+        apply (IH A (S p) Lg m); auto; try lia.
+        assert (TA : term_at A (S p) = Some (eterm e)) by (unfold term_at; rewrite T; cbn; congruence).
+        assert (TL : term_at Lg (S p) = Some (eterm e)) by (unfold term_at; cbn; rewrite He; reflexivity).
+        eapply LM_agree; eauto.
+      * (* conflict at p+1: that position lies beyond the agreeing prefix *)
+        assert (Hmp : (m <= p)%nat).
+        { destruct (le_lt_dec m p); [assumption|exfalso].
+          assert (nth_error (firstn m A) p = nth_error (firstn m Lg) p) by (rewrite Hmag; reflexivity).
+          rewrite !nth_error_firstn_lt in H by lia. cbn in T. rewrite T, He in H. injection H as ->. congruence. }
+        assert (EA : firstn (N.to_nat (N.of_nat (S p) - 1)) A ++ [e] = firstn (S p) Lg).
+        { replace (N.to_nat (N.of_nat (S p) - 1)) with p by lia. rewrite Hstep, <- Hag. reflexivity. }
+        apply (IH (firstn (N.to_nat (N.of_nat (S p) - 1)) A ++ [e]) (S p) Lg m); auto.
+        -- rewrite EA. apply WI_firstn. exact WL.
+        -- rewrite EA. apply LM_firstn. exact HL.
+        -- rewrite EA. rewrite firstn_length. apply nth_error_len in He. lia.
+        -- rewrite EA. rewrite firstn_firstn. f_equal. lia.
+        -- rewrite EA. rewrite firstn_length. apply nth_error_len in He. lia.
+        -- rewrite EA. rewrite firstn_firstn. replace (Nat.min m (S p)) with m by lia. reflexivity.
+Qed.
+End Keep.
